@@ -72,7 +72,14 @@ func openReader(format string, src io.Reader, rdict int, single bool) (io.Reader
 func runReader(format string, img []byte, want int, c *RCase, limit int, x *sim.Ctx) *RResult {
 	res := &RResult{}
 	src := simio.NewSource(img, c.Src)
+	src.OnCall = x.Yield
 	res.Src = src
+	yield := func() {
+		if x.Yield != nil {
+			x.Yield()
+		}
+	}
+	yield()
 	var rd io.Reader
 	x.Ev("open %s len=%d src=%+v rdict=%d single=%v", format, len(img), c.Src, c.RDict, c.Single)
 	res.OpenPanic = guard(func() { rd, res.OpenErr = openReader(format, src, c.RDict, c.Single) })
@@ -111,6 +118,7 @@ func runReader(format string, img []byte, want int, c *RCase, limit int, x *sim.
 		var n int
 		var err error
 		c0, e0 := src.Calls, src.Empty
+		yield()
 		pn := guard(func() { n, err = rd.Read(p) })
 		x.Step("api", 1)
 		if d := src.Calls - c0; d > res.MaxSrcCallsPerRead {
